@@ -754,8 +754,8 @@ class FnAnalysis:
                 single = len(p) == 1
                 for (r, pp) in p:
                     cell = (r, trunc(pp + path))
-                    strong = single and "[]" not in cell[1] and len(pp + path) <= DEPTH and not (isinstance(r, tuple) and r[0] in ("U", "PP"))
-                    self.st_write(st, cell, labels, strong)
+                    # a callee's write is only known to happen on some path: never kill the caller's labels
+                    self.st_write(st, cell, labels, False)
         rp = set()
         for i in summ.ret_alias:
             if i - 1 < len(argv) and argv[i - 1][1]:
